@@ -202,6 +202,7 @@ type c14Case struct {
 	Days   []int  `json:"days"`
 	Layout string `json:"layout"` // "" = default
 	ViaEnv bool   `json:"viaenv"`
+	ViaCfg bool   `json:"viacfg"` // date format given by the configuration file (--config) instead
 	Begin  int    `json:"begin"` // c07Absent = none
 	End    int    `json:"end"`
 }
@@ -211,7 +212,10 @@ func checkC14(c c14Case, ctx *vCtx) *vFailure {
 	env := map[string]string{}
 	var opts []string
 	if c.Layout != "" {
-		if c.ViaEnv {
+		if c.ViaCfg {
+			cp := vWriteFile("c14.conf", "[Global]\nDateFormat="+c.Layout+"\n")
+			opts = append(opts, "--config", cp)
+		} else if c.ViaEnv {
 			env["HR_DATE_FORMAT"] = c.Layout
 		} else {
 			opts = append(opts, "--date-format", c.Layout)
@@ -265,7 +269,9 @@ func checkC14(c c14Case, ctx *vCtx) *vFailure {
 	ctx.NonTrivial(c.Layout != "" || hasNotes || hasMerge || len(feats) >= 2)
 	if c.Layout != "" {
 		ctx.Label("date-format:" + c.Layout)
-		if c.ViaEnv {
+		if c.ViaCfg {
+			ctx.Label("via-config-file")
+		} else if c.ViaEnv {
 			ctx.Label("via-env")
 		}
 	}
@@ -356,7 +362,7 @@ func genC14(t *rapid.T) c14Case {
 			}
 		}
 	}
-	c := c14Case{Log: log, Days: days, Layout: layout, ViaEnv: rapid.Bool().Draw(t, "viaenv"), Begin: c07Absent, End: c07Absent}
+	c := c14Case{Log: log, Days: days, Layout: layout, ViaEnv: rapid.Bool().Draw(t, "viaenv"), ViaCfg: rapid.IntRange(0, 2).Draw(t, "viacfg") == 0, Begin: c07Absent, End: c07Absent}
 	if rapid.IntRange(0, 3).Draw(t, "period") == 0 {
 		c.Begin = rapid.IntRange(0, 7).Draw(t, "b")
 		if rapid.Bool().Draw(t, "hase") {
@@ -379,6 +385,6 @@ func TestVerifC13Random(t *testing.T) {
 
 func TestVerifC14Random(t *testing.T) {
 	vRapid(t, "C14", "c14.random",
-		"random logs in every layout variant with wild names, notes of both documented forms, duplicates inside a day, quantities with >2 decimals and ties at the third decimal, empty days; date format from {default, 2006-01-02, 02.01.2006, 02/01/2006, '2 Jan 2006', 20060102} given by flag or HR_DATE_FORMAT; optional period; oracle: print output read by an own normal-form reader = AST, the tool reads it back (csv log equal up to rounding), print of the printed log is byte-identical; non-trivial = non-default date format or notes or a merged duplicate or >=2 layout features",
+		"random logs in every layout variant with wild names, notes of both documented forms, duplicates inside a day, quantities with >2 decimals and ties at the third decimal, empty days; date format from {default, 2006-01-02, 02.01.2006, 02/01/2006, '2 Jan 2006', 20060102} given by flag, HR_DATE_FORMAT or the configuration file; optional period; oracle: print output read by an own normal-form reader = AST, the tool reads it back (csv log equal up to rounding), print of the printed log is byte-identical; non-trivial = non-default date format or notes or a merged duplicate or >=2 layout features",
 		vBudget(4000, 96000), genC14, checkC14)
 }
